@@ -1140,6 +1140,11 @@ for _f in sorted(_glob.glob(os.path.join(HERE, 'docs', 'round4', 'C*.json'))):
         if not _t.upper().startswith('ROUND 4'):
             _t = 'ROUND 4: ' + _t
         CHECKS[_pid]['text'] += ' ' + _t
+        _t5 = (_r.get('text_append5') or '').strip()
+        if _t5:
+            if not _t5.upper().startswith('ROUND 5'):
+                _t5 = 'ROUND 5: ' + _t5
+            CHECKS[_pid]['text'] += ' ' + _t5
 
 NOT_YET = {}
 
